@@ -119,6 +119,11 @@ def check(repo: Repo, rep: Report) -> None:
         if core != "_on_next_core":
             SC.rule_state_before_callout(rep, m, True, core == "_on_error_core")
         loops_ = SC.delivery_loops(m)
+        if not loops_:
+            rep.ob("RP2-buffer-before-delivery", m, f"{core}: delivers to a snapshot of the observers", False,
+                   f"ReplaySubject.{core} has no delivery loop of its own: enqueueing on every observer before any of them is activated (and the "
+                   f"buffer update before both) can no longer be established for it")
+            continue
         first = min((s for s, *_ in loops_), key=lambda s: s.index)
         trims = [s for s in sites(m) if isinstance(s.node, ast.Call) and dotted(s.node.func) == "self._trim"]
         ok = bool(trims) and all("self.lock" in s.ctx.locks and dominates(s, first) for s in trims)
